@@ -177,7 +177,8 @@ def x_seq(ctx, case):
               lambda: {"testsRun": ss.testsRun, "want": len(counted), **detail()})
 
     def ids(bucket):
-        return sorted(t[0].id() if isinstance(t, tuple) else t.id() for t in bucket)
+        # (key=repr: a test recorded under the id None is a violation to report, not something to trip over)
+        return sorted((t[0].id() if isinstance(t, tuple) else t.id() for t in bucket), key=lambda i: (i is None, i or ""))
 
     want = {
         "errors": sorted(r["id"] for r in counted if r["status"] in ("fail", "inprogress", "unknown")),
